@@ -167,6 +167,21 @@ pub fn programs() -> Vec<(&'static str, String, Vec<Emit>, bool)> {
         ints(&[1, 2, 3, 4]),
         true,
     ));
+    // the writer formats a string per round, writes it, drops it and allocates enough for its collector to run between
+    // rounds: with REAL frees the next string may reuse the freed address (only the unmodified runtime shows that, so this
+    // program is run under the real-mode schedules only; the product search keeps reclaimed objects in quarantine)
+    v.push((
+        "real-only:writer-reuses-freed-string-addresses",
+        "let c: channel<string> = channel()\ntask {\n  var r = 0\n  while r < 6 {\n    var label = (1000 + r).str()\n    c.write(label)\n    label = \"\"\n    var samples: array<int> = []\n    var k = 0\n    while k < 20 {\n      samples.push(k * k)\n      k = k + 1\n    }\n    r = r + 1\n  }\n}\nvar n = 0\nwhile n < 6 {\n  vh_emit_str(c.read())\n  n = n + 1\n}\n".into(),
+        (0..6).map(|r| Emit::Str(format!("{}", 1000 + r))).collect(),
+        false,
+    ));
+    v.push((
+        "real-only:writer-reuses-freed-array-addresses",
+        "let c: channel<array<int>> = channel()\ntask {\n  var r = 0\n  while r < 6 {\n    var msg = [1000 + r, r]\n    c.write(msg)\n    msg = []\n    var samples: array<int> = []\n    var k = 0\n    while k < 20 {\n      samples.push(k * k)\n      k = k + 1\n    }\n    r = r + 1\n  }\n}\nvar n = 0\nwhile n < 6 {\n  let m = c.read()\n  vh_emit_int(m[0] * 10 + m[1])\n  n = n + 1\n}\n".into(),
+        (0..6).map(|r| Emit::Int((1000 + r) * 10 + r)).collect(),
+        false,
+    ));
     v
 }
 
@@ -282,6 +297,11 @@ impl Prop for C09 {
                 );
                 return;
             }
+        }
+        if name.starts_with("real-only:") {
+            out.class("program:real-mode-only");
+            out.sample(json!({"program": name, "reference_steps": ref_steps}));
+            return;
         }
         let cycles = tier.pick(1, 2);
         let cap = tier.pick(300_000, 3_000_000);
